@@ -142,5 +142,70 @@ class Bip143(Family):
         return ('all-hashtypes' if case['hts'] == 'all' else 'representative-hashtypes'), True, n
 
 
+class Interleaved(Family):
+    """call histories on ONE transaction object and ONE script object: the witness-v0 digest and the legacy digest are
+    requested alternately with otherwise identical arguments (same script, index, hash type, amount), in every order of
+    length <= 3, then the mutable transaction is edited in place (every edit of the catalogue in turn) and the calls are
+    repeated with the last call before each edit identical to the first call after it.  Every answer must be the
+    reference digest of its own algorithm for the fields at the time of the call."""
+    name = 'sigversion_and_edit_histories'
+    nontrivial_rule = 'every case'
+    ORDERS = ('W', 'WW', 'BW', 'WB', 'WBW', 'BWB', 'BBW')
+    HTS = [0x01, 0x02, 0x03, 0x81, 0x82, 0x83, 0x00, 0x41, 0xc2]
+
+    def shards(self, tier):
+        return [(nin, nout, mut, sci) for nin, nout in ((1, 1), (2, 2), (3, 1)) for mut in (False, True) for sci in (4, 5, 0)]
+
+    def cases(self, shard, tier):
+        nin, nout, mut, sci = shard
+        for idx in range(nin):
+            for order in self.ORDERS:
+                yield (nin, nout, mut, sci, idx, order)
+
+    def check(self, case):
+        from bitcoin.core.script import SignatureHash, SIGVERSION_WITNESS_V0, SIGVERSION_BASE, CScript
+        nin, nout, mut, sci, idx, order = case
+        m = C.default_tx(nin, nout)
+        tx = C.lib_tx(m, mutable=mut)
+        sc = SC_SHAPED[sci]
+        cs = CScript(sc)
+        amount = 5000000000
+        n = [0]
+
+        def call(kind, ht, when):
+            n[0] += 1
+            if kind == 'W':
+                want = SH.bip143(sc, m, idx, ht, amount)
+                got = SignatureHash(cs, tx, idx, ht, amount=amount, sigversion=SIGVERSION_WITNESS_V0)
+                if got != want:
+                    raise Viol('witness-v0 SignatureHash %s (order %s, idx=%d, hashtype=%#04x) is not the BIP143 digest of the current fields' % (when, order, idx, ht), want.hex(), bytes(got).hex())
+            else:
+                want, werr = SH.legacy(sc, m, idx, ht)
+                try:
+                    got = SignatureHash(cs, tx, idx, ht, amount=amount, sigversion=SIGVERSION_BASE)
+                except ValueError:
+                    if not werr:
+                        raise Viol('legacy SignatureHash raised ValueError %s' % when, want.hex(), 'ValueError')
+                    return
+                if werr or got != want:
+                    raise Viol('legacy SignatureHash %s (order %s, idx=%d, hashtype=%#04x) is not the legacy digest of the current fields' % (when, order, idx, ht), want.hex(), bytes(got).hex())
+        for ht in self.HTS:
+            for k in order:
+                call(k, ht, 'in a history of alternating signature versions')
+        if mut:
+            hts = list(self.HTS)
+            for name, fn in C.inplace_edits(m):
+                if name == 'pop_in' and len(m['vin']) - 1 <= idx:
+                    continue
+                for ht in hts:
+                    for k in order:
+                        call(k, ht, 'before in-place edit %s' % name)
+                fn(tx, m)
+                # same arguments as the last call before the edit
+                call(order[-1], hts[-1], 'right after in-place edit %s' % name)
+                hts = hts[::-1]
+        return 'ok', True, n[0]
+
+
 def families(tier):
-    return [Bip143()]
+    return [Bip143(), Interleaved()]
